@@ -2,7 +2,7 @@
 (* R3 judge: is a recorded token sequence (from the REAL lexer, or built by the harness) a sentence
    of the grammar, and - when the trace carries events - is the recorded tree (projected from the
    real parser's AST by the harness walker) the derivation?  Batched: one JVM judges the whole file.
-   Trace record: [toks |-> seq of [k, v], ev |-> seq of <<tag, kind, idx>>, ce |-> BOOLEAN,
+   Trace record: [toks |-> seq of [k, v], ev |-> seq of <<tag, kind, idx>>, ce |-> BOOLEAN (events with token indices must match), ck |-> BOOLEAN (event kinds only),
                   start |-> start symbol, ts |-> BOOLEAN, fv |-> BOOLEAN]                                  *)
 EXTENDS GqlGrammar, Json, IOUtils
 Traces == JsonDeserialize(IOEnv.TRACE_FILE)
@@ -13,7 +13,9 @@ Init == tid \in 1..Len(Traces) /\ st = <<N(Traces[tid].start)>> /\ pos = 1 /\ ep
 top == Head(st)
 rest == Tail(st)
 Fits(s) == MinLen(s) <= Len(Tr.toks) - pos + 1
-EvOk(tag, kind, idx) == IF Tr.ce THEN epos <= Len(Tr.ev) /\ Tr.ev[epos] = <<tag, kind, idx>> ELSE TRUE
+EvOk(tag, kind, idx) == IF Tr.ce THEN epos <= Len(Tr.ev) /\ Tr.ev[epos] = <<tag, kind, idx>>
+                        ELSE IF Tr.ck THEN epos <= Len(Tr.ev) /\ Tr.ev[epos][1] = tag /\ Tr.ev[epos][2] = kind
+                        ELSE TRUE
 Expand  == /\ top[1] = "N"
            /\ \E i \in 1..Len(Prods(top[2], Tr.ts, Tr.fv)) : st' = Prods(top[2], Tr.ts, Tr.fv)[i] \o rest
            /\ UNCHANGED <<pos, epos, ban>>
@@ -47,6 +49,6 @@ Next == /\ st # <<>> /\ UNCHANGED tid
         /\ (Expand \/ Enter \/ Leave \/ OptStep \/ PlusStep \/ StarStep \/ Shift \/ BanStep)
         /\ Fits(st')
 Spec == Init /\ [][Next]_vars
-Accepting == st = <<>> /\ pos = Len(Tr.toks) + 1 /\ (Tr.ce => epos = Len(Tr.ev) + 1)
+Accepting == st = <<>> /\ pos = Len(Tr.toks) + 1 /\ ((Tr.ce \/ Tr.ck) => epos = Len(Tr.ev) + 1)
 Acc == Accepting => PrintT("ACC " \o ToString(tid))
 =============================================================================
